@@ -102,6 +102,7 @@ class Opts:
         self.force_parts = None      # set of part names forced present
         self.forbid_parts = set()
         self.special_floats = True
+        self.unordered_pairs = 0.0   # probability that a match pair is stored against the convention image1 < image2
         self.__dict__.update(kw)
 
 
@@ -293,7 +294,12 @@ def gen_dataset(rng, opts=None):
                 for _ in range(rng.randint(0, 4)):
                     if len(ims) >= 2:
                         a, b = rng.sample(ims, 2)
-                        pairs.add((min(a, b), max(a, b)))
+                        if (b, a) in pairs or (a, b) in pairs:
+                            continue
+                        if rng.random() < o.unordered_pairs:
+                            pairs.add((max(a, b), min(a, b)))     # legal (Matches.add does not reorder), unconventional
+                        else:
+                            pairs.add((min(a, b), max(a, b)))
                 if pairs:
                     ms[t] = sorted([list(p) for p in pairs])
             d['matches'] = ms or None
